@@ -41,6 +41,26 @@ LIB = {
 }
 
 
+# edge templates (coupling operators evaluated on the edge): s_e is fed by the edge's source; s_t (ecoup) is wired
+# explicitly to another node variable through a string attribute of the edge
+ELIB = {
+    'egain': {'eqs': ["m = kk*tanh(s_e)"], 'wired': False},
+    'ecoup': {'eqs': ["m = kk*(s_e - s_t)"], 'wired': True},
+}
+
+
+def edge_value(attrs, ets, y, src):
+    """what an edge delivers (before delay): weight * f(source[, wired variable])"""
+    w = attrs.get('weight', 1.0)
+    if not attrs.get('et'):
+        return w * y[src]
+    et = ets[attrs['et']]
+    kk = attrs.get('kk', et.get('kk', 0.5))
+    if et['lib'] == 'egain':
+        return w * kk * math.tanh(y[src])
+    return w * kk * (y[src] - y[attrs['wire']])
+
+
 def ref_rhs(lib, p, s, u, past=None):
     """derivatives of operator `lib` with parameters p, state s (dicts) and summed input u;
     past(var, delay) -> value of this operator's state variable `var` at time now - delay (DDE operators)"""
@@ -94,7 +114,10 @@ def flatten(spec, top=None, prefix=''):
         for n, nt in spec.get('nodes', {}).items():
             nodes[prefix + n] = nt
     for s, t, a in spec.get('edges', []):
-        edges.append([prefix + s, prefix + t, dict(a)])
+        a = dict(a)
+        if a.get('wire'):
+            a['wire'] = prefix + a['wire']
+        edges.append([prefix + s, prefix + t, a])
     return nodes, edges
 
 
@@ -133,7 +156,7 @@ class RefNet:
             if t == f"{node}/{opname}/{LIB[self.inst[(node, opname)]['lib']]['in']}":
                 if skip_delayed and (a.get('delay') or a.get('spread')):
                     continue
-                u += a.get('weight', 1.0) * y[s]
+                u += edge_value(a, self.spec.get('ets', {}), y, s)
         return u
 
     def rhs(self, y, extra=None, past=None):
@@ -336,8 +359,28 @@ def build_python(spec, pool=None):
                 pool[('nt', k)] = NodeTemplate(name=nt['name'], operators=[ops[ok] for ok in nt['ops']])
         nts[k] = pool[('nt', k)]
 
+    ets = {}
+    for k, et in (spec.get('ets') or {}).items():
+        if ('et', k) not in pool:
+            from pyrates import EdgeTemplate
+            vars_ = {'s_e': 'input(0.0)', 'm': 'output(0.0)', 'kk': float(et.get('kk', 0.5))}
+            if ELIB[et['lib']]['wired']:
+                vars_['s_t'] = 'input(0.0)'
+            eop = OperatorTemplate(name=et['opname'], equations=list(ELIB[et['lib']]['eqs']), variables=vars_)
+            pool[('et', k)] = EdgeTemplate(name=et['name'], operators=[eop])
+        ets[k] = pool[('et', k)]
+
     def edge(e):
         a = {k: v for k, v in e[2].items() if v is not None and k in ('weight', 'delay', 'spread')}
+        if e[2].get('et'):
+            et = spec['ets'][e[2]['et']]
+            pre = f"{et['name']}/{et['opname']}"
+            if ELIB[et['lib']]['wired']:
+                a[f'{pre}/s_e'] = 'source'
+                a[f'{pre}/s_t'] = e[2]['wire']
+            if e[2].get('kk') is not None:
+                a[f"{et['opname']}/kk"] = e[2]['kk']       # numeric edge-operator values are keyed 'op/var'
+            return (e[0], e[1], ets[e[2]['et']], a)
         return (e[0], e[1], None, a)
 
     def circ(s):
@@ -372,9 +415,26 @@ def yaml_text(spec):
             lines += [f"    - {spec['ops'][ok]['name']}" for ok in nt['ops']]
         lines.append('')
 
+    for k, et in (spec.get('ets') or {}).items():
+        lines += [f"{et['opname']}:", '  base: OperatorTemplate', '  equations:']
+        lines += [f'    - "{e}"' for e in ELIB[et['lib']]['eqs']]
+        lines += ['  variables:', '    s_e: input(0.0)', '    m: output(0.0)', f"    kk: {float(et.get('kk', 0.5))!r}"]
+        if ELIB[et['lib']]['wired']:
+            lines.append('    s_t: input(0.0)')
+        lines += ['', f"{et['name']}:", '  base: EdgeTemplate', '  operators:', f"    - {et['opname']}", '']
+
     def edge(e):
-        a = ', '.join(f'{k}: {float(v)!r}' for k, v in e[2].items() if v is not None and k in ('weight', 'delay', 'spread'))
-        return f'    - [{e[0]}, {e[1]}, null, {{{a}}}]'
+        parts = [f'{k}: {float(v)!r}' for k, v in e[2].items() if v is not None and k in ('weight', 'delay', 'spread')]
+        tmpl = 'null'
+        if e[2].get('et'):
+            et = spec['ets'][e[2]['et']]
+            tmpl = et['name']
+            pre = f"{et['name']}/{et['opname']}"
+            if ELIB[et['lib']]['wired']:
+                parts += [f'{pre}/s_e: source', f"{pre}/s_t: {e[2]['wire']}"]
+            if e[2].get('kk') is not None:
+                parts.append(f"{et['opname']}/kk: {float(e[2]['kk'])!r}")
+        return f"    - [{e[0]}, {e[1]}, {tmpl}, {{{', '.join(parts)}}}]"
 
     def circ(s, top):
         subs = s.get('circuits') or {}
@@ -412,6 +472,46 @@ def state_outputs(spec):
     """outputs dict requesting every state variable by explicit path: {label: path}"""
     net = RefNet(spec)
     return {f'o{i}': n for i, n in enumerate(net.state_names)}
+
+
+def add_edge_templates(rng, spec, p=0.5, uniq=''):
+    """turn a seeded share of the undelayed edges into template edges (gain / explicitly wired coupling, with optional
+    per-edge override of the edge operator's constant)"""
+    spec['ets'] = {f'et{j}{uniq}': {'name': f'et{j}{uniq}', 'opname': f'eop{j}{uniq}', 'lib': lib, 'kk': rng.randint(2, 24) / 16}
+                   for j, lib in enumerate(['egain', 'ecoup'])}
+
+    def levels(s_):
+        yield s_
+        for sub in (s_.get('circuits') or {}).values():
+            yield from levels(sub)
+    used = set()
+    # edges that use the same template are grouped by the compiler and must carry the same attribute keys: a template is
+    # used either with a per-edge value of its constant on every edge or on none
+    with_kk = {k: rng.random() < 0.4 for k in spec['ets']}
+    for lv in levels(spec):
+        for e in lv.get('edges', []):
+            if e[2].get('delay') or e[2].get('spread') or rng.random() > p:
+                continue
+            k = rng.choice(sorted(spec['ets']))
+            e[2]['et'] = k
+            used.add(k)
+            if ELIB[spec['ets'][k]['lib']]['wired']:
+                e[2]['wire'] = e[1].rsplit('/', 1)[0] + '/' + _state_of_target(spec, lv, e[1])
+            if with_kk[k]:
+                e[2]['kk'] = rng.randint(2, 24) / 16
+    spec['ets'] = {k: v for k, v in spec['ets'].items() if k in used}
+    if not spec['ets']:
+        del spec['ets']
+    return spec
+
+
+def _state_of_target(spec, level, tgt):
+    """name of a state variable of the target operator (the wired second input of a coupling edge reads it)"""
+    opname = tgt.split('/')[-2]
+    for o in spec['ops'].values():
+        if o['name'] == opname:
+            return LIB[o['lib']]['out']
+    raise KeyError(opname)
 
 
 def gen_aliased(rng, uniq='', hier=None, build='python', libs=('lin', 'leak', 'sat')):
